@@ -4,7 +4,7 @@ State = which forwarding features the client has enabled itself so far (x11, age
 No paramiko imports; the harness feeds it the toggle history and asks what an action may yield.
 """
 
-TOGGLES = ("x11_ok", "x11_denied", "agent", "pf_ok", "pf_denied", "pf_cancel")
+TOGGLES = ("x11_ok", "x11_denied", "agent", "pf_ok", "pf_denied", "pf_cancel", "pf_cancel_refused")
 
 # channel requests that ask the receiver to run a command / shell / subsystem / terminal
 RUN_REQUESTS = ("exec", "shell", "subsystem", "pty-req")
@@ -25,6 +25,10 @@ def apply(state, toggle):
     elif toggle == "pf_denied":     # answered with REQUEST_FAILURE: nothing new was enabled
         pass
     elif toggle == "pf_cancel":     # cancel_port_forward of the only forward ever requested
+        tcp = False
+    elif toggle == "pf_cancel_refused":
+        # the same call, but the server answers the cancel with REQUEST_FAILURE: what the client has
+        # enabled is the client's decision - a peer cannot keep a cancelled feature switched on
         tcp = False
     else:
         raise ValueError(toggle)
